@@ -290,7 +290,7 @@ def judge_refusal(sc):
     policy = rngseam.Policy(run.log)
     with rngseam.Seam(policy, log=run.log):
         try:
-            prog = spec.build_program(subject["program"])
+            prog = spec.build_program(subject["program"], subject.get("build", "list"))
             cls = ins.instrumented_class(spec.simulator_class(subject["sim"]), mon)
             sim = cls(d=subject["d"], config=spec.build_config(subject.get("config", {})))
             mon.watch(prog)
@@ -378,6 +378,8 @@ def run_index(seed, idx, tier):
     out = []
     opts = {}
     subject = gen.finalise(gen.gen_subject(rng.randrange(2**62), sim, shots=rng.randrange(1, 9), **opts))
+    # the three ways a user registers instructions
+    subject["build"] = rng.weighted([("list", 5), ("context-all", 3), ("context-empty", 2)])
 
     def emit(sc):
         rec = judge(sc)
